@@ -9,7 +9,7 @@ The repository is always restored with `git checkout -- .` (tracked files only).
 """
 import os, sys, json, subprocess, shutil, glob, tempfile, time
 ROOT = os.path.dirname(os.path.dirname(os.path.abspath(__file__)))
-REPO = "/repo"
+REPO = os.environ.get("VERIF_REPO", "/repo")   # a scratch worktree can stand in while /repo is busy
 
 
 def sh(cmd, cwd=None, env=None, timeout=3000):
@@ -24,7 +24,7 @@ def clean():
 
 def demo(path):
     home = tempfile.mkdtemp(prefix="seed-home-")
-    env = dict(os.environ, HOME=home)
+    env = dict(os.environ, HOME=home, PYTHONPATH=REPO)
     rc, out = sh(["/venv/bin/python", "-W", "ignore", path], cwd=REPO, env=env, timeout=1800)
     shutil.rmtree(home, True)
     return rc, out[-600:]
